@@ -791,9 +791,14 @@ func (c *Converter) ConvertNotificationTypedValues(ctx context.Context, n *sdcpb
 			expNn := &sdcpb.Notification{
 				Timestamp: n.GetTimestamp(),
 				Update:    expUpds,
-				Delete:    n.GetDelete(),
 			}
-			return c.ConvertNotificationTypedValues(ctx, expNn)
+			// the expanded values take the place of the blob, the other updates of the notification are kept
+			convNn, err := c.ConvertNotificationTypedValues(ctx, expNn)
+			if err != nil {
+				return nil, err
+			}
+			nn.Update = append(nn.Update, convNn.GetUpdate()...)
+			continue
 		}
 		if nup == nil { // filters out notification ending in non-presence containers
 			continue
